@@ -25,7 +25,19 @@ func seqScenario(cfg *config) *mc.Scenario {
 			if tier == "" {
 				tier = "quick"
 			}
-			cur = build(x, cfg, cfg.depth[tier])
+			depth := cfg.depth[tier]
+			if os.Getenv("MC_REPLAY") != "" {
+				// A replay file does not record the tier it was
+				// found in: allow the deepest exploration depth (the
+				// recorded choices are valid for any depth that is
+				// large enough).
+				for _, d := range cfg.depth {
+					if d > depth {
+						depth = d
+					}
+				}
+			}
+			cur = build(x, cfg, depth)
 		},
 		Finish: func(x *mc.X) {
 			x.Outcome("%s", strings.Join(cur.outcome, ";"))
